@@ -159,7 +159,20 @@ func RunCheck(ctx *Ctx, prepare func(*Ctx) (*Prepared, error), level string) int
 	fmt.Printf("property=%s tier=%s jobs=%d\n", ctx.ID, ctx.Tier, len(jobs))
 	tPrep := time.Since(t0)
 	sortJobsByCost(ctx, prep, jobs)
-	results := RunJobs(jobs, ctx.Par, ctx.Work)
+	// overall budget of the engine phase: thorough runs explore until it is
+	// used up and say which jobs were left out (VERIF_GLOBAL_BUDGET_S overrides)
+	var deadline time.Time
+	budget := 0.0
+	if ctx.Tier == "thorough" {
+		budget = 3000
+	}
+	if v := os.Getenv("VERIF_GLOBAL_BUDGET_S"); v != "" {
+		fmt.Sscanf(v, "%g", &budget)
+	}
+	if budget > 0 {
+		deadline = time.Now().Add(time.Duration(budget * float64(time.Second)))
+	}
+	results := RunJobs(jobs, ctx.Par, ctx.Work, deadline)
 	if os.Getenv("VERIF_WRITE_HINTS") != "" && ctx.Only == "" {
 		writeHints(ctx, prep, results)
 	}
@@ -197,6 +210,12 @@ func RunCheck(ctx *Ctx, prepare func(*Ctx) (*Prepared, error), level string) int
 		j := jobByName[r.Job]
 		if r.Fatal != "" {
 			fatal = append(fatal, r.Job+": "+r.Fatal)
+			continue
+		}
+		if r.Skipped {
+			incon++
+			inconReasons["job-not-run-overall-time-budget"]++
+			inconFuncs = append(inconFuncs, "job not run (overall time budget): "+r.Job)
 			continue
 		}
 		for p, es := range r.LoadErrors {
